@@ -806,6 +806,8 @@ def gen_C07(rng, count, tier):
 
 
 def gen_C08(rng, count, tier):
+    # over real sockets: a client that half-closes right behind its request (files that fit in one copy block)
+    yield ("tls", "plain halfclose root:%s" % hx(FSROOT.encode()))
     files = [("in.txt", 40), ("sub/deep.txt", 31), ("big.bin", 70000), ("empty.txt", 0), ("edge.bin", 65536), ("a%26b%3Cc%3E.txt", 12)]
     for i in range(count):
         name, size = pick(rng, files) if rng.random() < 0.9 else (pick(rng, ["", "sub", "sub/"]), 0)
@@ -1115,6 +1117,8 @@ def gen_C10(rng, count, tier):
     for pay in [b"", b"\x16\x03\x01", hello, hello[:20], b"GET / HTTP/1.1\r\n\r\n"]:
         yield ("tls", "tls raw:%s" % hx(pay))
     yield ("tls", "tls ssl:%s" % hx(b"/x"))
+    # several clients at once with a small accept backlog; one leaves while the others are still sending
+    yield ("tls", "plain crowd")
     reqs = {
         "fs": [b"GET /big.bin HTTP/1.1\r\n\r\n", b"GET /in.txt HTTP/1.1\r\n\r\n", b"GET /sub HTTP/1.1\r\n\r\n", b"GET /big.bin HTTP/1.1\r\nRange: bytes=10-69000\r\n\r\n",
                b"GET /nonexistent HTTP/1.1\r\n\r\n", b"BAD\r\n\r\n", b"GET /edge.bin HTTP/1.1\r\n\r\n"],
@@ -1172,6 +1176,8 @@ def fuzz_api(rng):
 def gen_C11(rng, count, tier):
     # liveness over real sockets: a client that never reads a huge response must not stall the engine
     yield ("tls", "plain stall")
+    # several clients at once with a small accept backlog; one leaves while the others are still sending
+    yield ("tls", "plain crowd")
     # every other component the statement names: response parser and relay (proxy), range parser,
     # filesystem handler, slot handler, copier, connection teardown — their own scenario
     # languages, run under the sanitizers; the model comparison is the one of the owning property
